@@ -184,7 +184,7 @@ def run(ctx):
     ctx.proof_stage()
     binary = vlib.build_harness("h_kf")
     g = ctx.gen("kfp")
-    N = ctx.n(130, 4000)
+    N = ctx.n(130, 3000)
     cases = []
     corpus = vlib.VERIF / "corpus" / "C02" / "cases.txt"
     if corpus.exists():
